@@ -178,7 +178,7 @@ def parseOp : List String → Option (Op × Nat)
   | "ctake" :: k :: rest => do
     -- concurrent readers of one key: the model is one fault-free Take; repeat count 0 marks the op
     match ← parseKey k with
-    | .p pk => pure (.take pk (← optJ rest) [] (← optDb rest), 0)
+    | .p pk => pure (.take pk (← optJ rest) [] ((← optDb rest) || rest.contains "lctx=1"), 0)
     | _ => none
   | "qindex" :: k :: rest => do
     match ← parseKey k with
@@ -412,6 +412,24 @@ def showSlot (s : St) (k : Slot) : Option String :=
 def pkOf : CKey → Nat
   | .p n => n | .x n => n
 
+/-- `ctx=pre`: the caller's context is cancelled before the call — every cache command of the operation fails in the
+client (it never reaches a server, so the harness cannot list it): the model runs the op with every command failing. -/
+def allFail : List Bool := List.replicate 8 true
+
+def preOp : Op → Op
+  | .take pk j _ d => .take pk j allFail d
+  | .qindex a j _ d => .qindex a j allFail d
+  | .get k _ => .get k allFail
+  | .exec ks w _ d => .exec ks w (List.replicate maxNodes allFail) d
+  | .del ks _ => .del ks (List.replicate maxNodes allFail)
+  | .set k v e j _ => .set k v e j allFail
+  | o => o
+
+/-- the observation of such an op with the commands the client refused filled in from the model, and the context
+error named as what it is for the cache layer: a failing cache command. -/
+def preObs (cmds : String) (toks : List String) : List String :=
+  toks.map fun t => if t = "err:context_canceled" then "cacheerr" else if t = "cmds=-" then cmds else t
+
 def runSection (r : Report) (sec : Section) : Report := Id.run do
   let nodes := kvNat sec.cfg "nodes" 1
   let typ := kvStr sec.cfg "type" "node"
@@ -551,6 +569,17 @@ def runSection (r : Report) (sec : Section) : Report := Id.run do
     | none, _ | _, none => r := r.mismatch sec.idx l.idx "bad-op" (joinSp l.op)
     | some (op, n), some via =>
       let conc := n = 0
+      let isPre := !conc && kv? l.op "ctx" = some "pre" && !l.op.contains "nc=1"
+      let lctx := conc && l.op.contains "lctx=1"
+      let op := if isPre then preOp op else op
+      let obsToks : List String :=
+        if isPre then
+          let c := cfgs.getD (via.headD 0) c0
+          let res := iterStep c s op n (s, { res := .ok })
+          preObs s!"cmds={showCmds (canonCmds (opKind op) res.2.cmds)}" l.obs
+        else if lctx then l.obs.map fun t => if t = "err:context_canceled" then "dberr" else t
+        else l.obs
+      if lctx then r := r.addCover "concurrent-readers-leader-context-cancelled-inside-the-query"
       if via = [] ∨ via.any (· ≥ cfgs.length) ∨ (!conc ∧ via.length ≠ 1) then
         r := r.mismatch sec.idx l.idx "bad-op" (joinSp l.op)
         continue
@@ -558,9 +587,17 @@ def runSection (r : Report) (sec : Section) : Report := Id.run do
       r := r.addCover (opKind op)
       if via.any (· > 0) then r := r.addCover "op-through-a-later-instance"
       if l.op.contains "nc=1" then r := r.addCover s!"context-free-wrapper-{opKind op}"
+      -- the caller's context (round 5b): the model has no such input — nothing an entry point leaves behind may depend on it
+      match kv? l.op "ctx" with
+      | some "after" => r := r.addCover s!"ctx-cancelled-after-return-{opKind op}"
+      | some "dl0" => r := r.addCover s!"ctx-deadline-before-first-retry-{opKind op}"
+      | some "bg" | none => pure ()
+      | some k => r := r.addCover (if k = "pre" then s!"ctx-cancelled-before-call-{opKind op}" else s!"ctx-deadline-between-or-after-retries-{opKind op}")
+      if (kv? l.op "ctx").isSome && (kv? l.op "ctx") ≠ some "bg" && (l.obs.any fun t => t.startsWith "cmds=" && (t.splitOn "del/").length > 1 && (t.splitOn ":fail").length > 1) then
+        r := r.addCover "failed-del-under-a-request-scoped-context"
       let dbf := match op with | .take _ _ _ d => d | _ => false
       let multi := Spec.classesOf kinds via > 1
-      let impl := joinSp l.obs
+      let impl := joinSp obsToks
       -- `db=2` / `db=3`: the query function panics; for the model and the monitor that is a failing database call
       -- (nothing cached, no result), printed `panicked` instead of `dberr`
       let pan := !conc && (l.op.contains "db=2" || l.op.contains "db=3")
@@ -616,7 +653,7 @@ def runSection (r : Report) (sec : Section) : Report := Id.run do
       | _ => pure ()
       if l.op.contains "w=1" && res.2.res = .notfound && res.2.q ≥ 1 then r := r.addCover "notfound-error-wrapped"
       if model ≠ impl then r := r.mismatch sec.idx l.idx model impl
-      match parseObs (if conc then concObs l.obs else unPan l.obs) with
+      match parseObs (if conc then concObs obsToks else unPan obsToks) with
       | none => r := r.violation sec.idx l.idx s!"unreadable observation [{impl}] op=[{joinSp l.op}]"
       | some o =>
         let m := Spec.monStep c report mon op n o
